@@ -689,13 +689,15 @@ class FlowPreconditioningTransform(BaseTransform):
         self.flow_backend = flow_backend
         self.flow_matching = flow_matching
         self.flow_kwargs = dict(flow_kwargs or {})
-        if dtype is not None:
-            self.flow_kwargs.setdefault("dtype", dtype)
         self.fit_kwargs = dict(fit_kwargs or {})
 
         FlowClass, xp = get_flow_wrapper(
             backend=flow_backend, flow_matching=flow_matching
         )
+        # The flow lives in its own namespace: express the dtype there
+        dtype = convert_dtype(dtype, xp)
+        if dtype is not None:
+            self.flow_kwargs.setdefault("dtype", dtype)
         transform = CompositeTransform(
             parameters=parameters,
             periodic_parameters=periodic_parameters,
